@@ -115,6 +115,9 @@ func main() {
 		large = append(large, part{"loop-" + name, bound, loopworld.Cfg{Native: native, Remote2: true, NoopRemote: true, Straddle: true, LoopFirst: r.Thorough(), MaxVisits: 2}})
 		// with the tomb sweeper enabled: stale remote deletion markers meet live local data
 		small = append(small, part{"loop-" + name + "-sweeper-enabled", bound, loopworld.Cfg{Native: native, Remote2: true, Sweeper: true, MaxVisits: 1, AppOps: []string{"put-a", "put-b", "del-a"}}})
+		// ... and its timer fires once over a stale local marker (the sweep's own transaction lands between the
+		// application's commits, the loop's poll and a remote arrival)
+		small = append(small, part{"loop-" + name + "-sweeper-fires", bound, loopworld.Cfg{Native: native, Remote2: true, Sweeper: true, SweeperFires: true, MaxVisits: 1, AppOps: []string{"del-a", "put-b"}}})
 		// two remote instances publish at once: several merges in one pass of the loop, application commits in between
 		small = append(small, part{"loop-" + name + "-two-remotes", bound, loopworld.Cfg{Native: native, Remote2: true, TwoRemotes: true, MaxVisits: 1, AppOps: []string{"put-b", "del-a", "newdbi"}}})
 	}
